@@ -274,7 +274,7 @@ theorem neutralizeVar_inv (h : Heap) (X : Oid) (name : String) :
     (∃ e, neutralizeVar h X name = (h, .error e)) ∨
     (∃ s m vid v c, h.getSys X = some s ∧ h.getMap s.vars = some m ∧ dictGet name m = some vid ∧
         h.getVar vid = some v ∧ cloneVar h v = .ok c ∧
-        neutralizeVar h X name = (bindVar h s m name { c with isNeutralized := true }, .ok ())) := by
+        neutralizeVar h X name = (bindVar h s m name { c with isNeutralized := true, label := some (neutralizedLabel v.label) }, .ok ())) := by
   unfold neutralizeVar
   cases hs : h.getSys X with
   | none => exact Or.inl ⟨_, rfl⟩
@@ -2269,6 +2269,18 @@ theorem requiredAttr_some (what : String) (d : Option String) (x : String) :
     requiredAttr what d (some x) = .ok (d.getD x) := by
   cases d <;> rfl
 
+/-- a class that is instantiated declares no value `Variable.set` refuses -/
+theorem constructWith_ok {cls : ClassDef} {bid : Option Oid} {b : Option VarObj} {v : VarObj}
+    (hc : constructWith cls bid b = .ok v) : cls.invalid = false ∧ constructCore cls bid b = .ok v := by
+  unfold constructWith at hc
+  cases hi : cls.invalid with
+  | true => rw [hi] at hc; simp at hc
+  | false => rw [hi] at hc; exact ⟨rfl, by simpa using hc⟩
+
+theorem constructWith_of_core {cls : ClassDef} {bid : Option Oid} {b : Option VarObj}
+    (hi : cls.invalid = false) : constructWith cls bid b = constructCore cls bid b := by
+  unfold constructWith; rw [hi]; rfl
+
 /-- everything `Variable.__init__(baseline_variable=b)` computes, in one statement -/
 theorem constructWith_some {cls : ClassDef} {bid : Oid} {b v : VarObj}
     (hc : constructWith cls (some bid) (some b) = .ok v) :
@@ -2279,7 +2291,8 @@ theorem constructWith_some {cls : ClassDef} {bid : Oid} {b v : VarObj}
     v.setInput = (match cls.setInput with | some x => some x | none => b.setInput) ∧
     v.isNeutralized = false ∧
     ∃ decl, declaredFormulas v.endDate cls.formulas [] = .ok decl ∧ v.formulas = mergeBaseline decl b.formulas := by
-  unfold constructWith at hc
+  have hc := (constructWith_ok hc).2
+  unfold constructCore at hc
   simp only [Option.map_some, requiredAttr_some] at hc
   split at hc
   · cases hc
@@ -2290,14 +2303,54 @@ theorem constructWith_some {cls : ClassDef} {bid : Oid} {b v : VarObj}
     · cases cls.default <;> rfl
     · cases cls.setInput <;> rfl
 
+/-- … its descriptive attributes: each one declared by the class, else inherited -/
+theorem constructWith_some_attrs {cls : ClassDef} {bid : Oid} {b v : VarObj}
+    (hc : constructWith cls (some bid) (some b) = .ok v) :
+    cls.invalid = false ∧
+    v.label = attrOf "label" v.valueType (dictGet "label" cls.attrs) (some b.label) ∧
+    v.attrs = metaKeys.map fun k =>
+      (k, metaAttr k v.valueType (dictGet k cls.attrs) (some (b.attr k))) := by
+  obtain ⟨hi, hc⟩ := constructWith_ok hc
+  unfold constructCore at hc
+  simp only [Option.map_some, requiredAttr_some] at hc
+  split at hc
+  · cases hc
+  · simp only [Except.ok.injEq] at hc
+    subst hc
+    exact ⟨hi, rfl, rfl⟩
+
+/-- looking a key up in a table built key by key -/
+theorem dictGet_map_self {α} (f : String → α) (l : List String) (k : String) (hk : k ∈ l) :
+    dictGet k (l.map fun x => (x, f x)) = some (f k) := by
+  induction l with
+  | nil => cases hk
+  | cons a r ih =>
+    simp only [List.map_cons, dictGet]
+    by_cases ha : a = k
+    · rw [if_pos ha, ha]
+    · rw [if_neg ha]
+      rcases List.mem_cons.mp hk with h | h
+      · exact absurd h.symm ha
+      · exact ih h
+
+/-- … attribute by attribute -/
+theorem constructWith_some_attr {cls : ClassDef} {bid : Oid} {b v : VarObj}
+    (hc : constructWith cls (some bid) (some b) = .ok v) (k : String) (hk : k ∈ metaKeys) :
+    v.attr k = metaAttr k v.valueType (dictGet k cls.attrs) (some (b.attr k)) := by
+  obtain ⟨_, _, ha⟩ := constructWith_some_attrs hc
+  unfold VarObj.attr
+  rw [ha, dictGet_map_self _ _ _ hk]
+  rfl
+
 /-- … and without a baseline -/
 theorem constructWith_none {cls : ClassDef} {v : VarObj} (hc : constructWith cls none none = .ok v) :
     v.cls = cls ∧ v.baseline = none ∧ cls.valueType = some v.valueType ∧
     v.default = cls.default.getD (typeDefault v.valueType) ∧ cls.entity = some v.entity ∧
     cls.defPeriod = some v.defPeriod ∧ v.endDate = declaredEnd cls.endDate none ∧ v.setInput = cls.setInput ∧
     v.isNeutralized = false ∧ declaredFormulas (declaredEnd cls.endDate none) cls.formulas [] = .ok v.formulas := by
-  obtain ⟨name, vt, df, ent, dp, ed, si, fs⟩ := cls
-  unfold constructWith at hc
+  have hc := (constructWith_ok hc).2
+  obtain ⟨name, vt, df, ent, dp, ed, si, fs, at_, inv⟩ := cls
+  unfold constructCore at hc
   cases vt with
   | none => simp [requiredAttr] at hc
   | some vt =>
@@ -2576,15 +2629,16 @@ theorem obs_congr {h h' : Heap} {Z : Oid} {s : SysObj} {m : List (String × Oid)
 
 /-! ## Every variable object can be rebuilt from its class and its baseline (`Variable.clone`) -/
 
-/-- the attributes `Variable.__init__` computes (not the formulas, nor the neutralised flag, which
-    `get_annualized_variable` / `get_neutralized_variable` overwrite on the instance) -/
+/-- the attributes `Variable.__init__` computes (not the formulas, nor the neutralised flag, nor the
+    label, which `get_annualized_variable` / `get_neutralized_variable` overwrite on the instance) -/
 def AttrsEq (a b : VarObj) : Prop :=
   a.cls = b.cls ∧ a.valueType = b.valueType ∧ a.default = b.default ∧ a.entity = b.entity ∧
-  a.defPeriod = b.defPeriod ∧ a.endDate = b.endDate ∧ a.setInput = b.setInput
+  a.defPeriod = b.defPeriod ∧ a.endDate = b.endDate ∧ a.setInput = b.setInput ∧ a.attrs = b.attrs ∧
+  (b.isNeutralized = false → a.label = b.label)
 
 instance (a b : VarObj) : Decidable (AttrsEq a b) := by unfold AttrsEq; infer_instance
 
-theorem AttrsEq.refl (a : VarObj) : AttrsEq a a := ⟨rfl, rfl, rfl, rfl, rfl, rfl, rfl⟩
+theorem AttrsEq.refl (a : VarObj) : AttrsEq a a := ⟨rfl, rfl, rfl, rfl, rfl, rfl, rfl, rfl, fun _ => rfl⟩
 
 /-- `Variable.clone()` (repaired, F-C14b) succeeds on every variable object and gives back its
     attributes -/
@@ -2631,8 +2685,12 @@ theorem constructWith_view_congr {cls : ClassDef} {i i' : Oid} {bo bo' c : VarOb
   have e5 : bo'.endDate = bo.endDate := congrArg VarView.endDate hv
   have e6 : bo'.setInput = bo.setInput := congrArg VarView.setInput hv
   have e7 : bo'.formulas = bo.formulas := congrArg VarView.formulas hv
-  unfold constructWith at hc ⊢
-  simp only [Option.map_some, requiredAttr_some, e1, e2, e3, e4, e5, e6, e7] at hc ⊢
+  have e8 : bo'.label = bo.label := congrArg VarView.label hv
+  have e9 : bo'.attrs = bo.attrs := congrArg VarView.attrs hv
+  obtain ⟨hi, hc⟩ := constructWith_ok hc
+  rw [constructWith_of_core hi]
+  unfold constructCore at hc ⊢
+  simp only [Option.map_some, requiredAttr_some, VarObj.attr, e1, e2, e3, e4, e5, e6, e7, e8, e9] at hc ⊢
   split at hc
   · cases hc
   · rename_i decl hd
@@ -2726,7 +2784,7 @@ theorem consistent_neutralizeVar {h : Heap} (hc : Consistent h) (X : Oid) (name 
   · rw [he]; exact hc
   · rw [he]
     obtain ⟨f1, f2⟩ := construct_fields hcl
-    refine consistent_bindVar hc hs hm _ _ ⟨c, ?_, ⟨rfl, rfl, rfl, rfl, rfl, rfl, rfl⟩⟩
+    refine consistent_bindVar hc hs hm _ _ ⟨c, ?_, ⟨rfl, rfl, rfl, rfl, rfl, rfl, rfl, rfl, fun hn => by cases hn⟩⟩
     show construct h c.cls c.baseline = .ok c
     rw [f1, f2]; exact hcl
 
@@ -2736,7 +2794,7 @@ theorem consistent_annualizeVar {h : Heap} (hc : Consistent h) (X : Oid) (name :
   · rw [he]; exact hc
   · rw [he]
     obtain ⟨f1, f2⟩ := construct_fields hcl
-    refine consistent_bindVar hc hs hm _ _ ⟨c, ?_, ⟨rfl, rfl, rfl, rfl, rfl, rfl, rfl⟩⟩
+    refine consistent_bindVar hc hs hm _ _ ⟨c, ?_, ⟨rfl, rfl, rfl, rfl, rfl, rfl, rfl, rfl, fun _ => rfl⟩⟩
     show construct h c.cls c.baseline = .ok c
     rw [f1, f2]; exact hcl
 
@@ -3087,7 +3145,7 @@ theorem resolve_some_inv {h : Heap} {X : Oid} {name : String} {vid : Oid} (hr : 
 theorem neutralizeVar_eq {h : Heap} {X : Oid} {name : String} {s : SysObj} {m : List (String × Oid)}
     {vid : Oid} {v c : VarObj} (hs : h.getSys X = some s) (hm : h.getMap s.vars = some m)
     (hd : dictGet name m = some vid) (hv : h.getVar vid = some v) (hcl : cloneVar h v = .ok c) :
-    neutralizeVar h X name = (bindVar h s m name { c with isNeutralized := true }, .ok ()) := by
+    neutralizeVar h X name = (bindVar h s m name { c with isNeutralized := true, label := some (neutralizedLabel v.label) }, .ok ()) := by
   unfold neutralizeVar
   rw [hs]; dsimp only; rw [hm]; dsimp only; rw [hd]; dsimp only; rw [hv]; dsimp only; rw [hcl]
 
